@@ -61,6 +61,11 @@ func (pf *ZKProof) Verify(Session []byte, X *crypto.ECPoint) bool {
 	q := ecParams.N
 	g := crypto.NewECPointNoCurveCheck(ec, ecParams.Gx, ecParams.Gy)
 
+	// t·G would be the point at infinity, which ScalarBaseMult cannot represent
+	if new(big.Int).Mod(pf.T, q).Sign() == 0 {
+		return false
+	}
+
 	var c *big.Int
 	{
 		cHash := common.SHA512_256i_TAGGED(Session, X.X(), X.Y(), g.X(), g.Y(), pf.Alpha.X(), pf.Alpha.Y())
